@@ -801,6 +801,7 @@ def tls_vs_ls_oracle(spec):
     for k in range(c.npar):
         a, b = rt.fit_parameters[k], rl.fit_parameters[k]
         big = max(float(np.max(np.abs(b.deltas[n]))) for n in b.deltas)
+        big = max(big, float(rsl[k]))     # a parameter that (almost) does not fluctuate: differences are judged against its resolution sigma_p
         # the two fits stop at slightly different points (slack, in units of the resolution); the sensitivities
         # S = -H^-1 M change by at most cond(H) * |dH|/|H| ~ cond(H) * slack * (resolution / |p|) between them
         relres = float(np.max(rsl / np.abs(jl.pvals)))
@@ -823,7 +824,7 @@ def tls_vs_ls_oracle(spec):
         a.gamma_method()
         b.gamma_method()
         trace(tvl_err=abs(a.dvalue - b.dvalue) / b.dvalue)
-        require(abs(a.dvalue - b.dvalue) <= tol * b.dvalue, 'error of parameter %d: total %.10g vs ordinary %.10g' % (k, a.dvalue, b.dvalue))
+        require(abs(a.dvalue - b.dvalue) <= tol * max(b.dvalue, float(rsl[k])), 'error of parameter %d: total %.10g vs ordinary %.10g' % (k, a.dvalue, b.dvalue))
     nt, labs = labels(c)
     return {'nt': nt, 'cls': labs}
 
